@@ -89,6 +89,7 @@ type K struct {
 	t0     time.Time
 	srcs   []Source
 	hooks  []func() bool
+	invs   []func()
 	bubble int
 
 	// StateFn contributes the world's abstract state to the fingerprint at each step.
@@ -208,10 +209,17 @@ func (k *K) Settle() {
 			}
 		}
 		if !changed {
-			return
+			break
 		}
 	}
+	for _, inv := range k.invs {
+		inv()
+	}
 }
+
+// AddInvariant registers a check evaluated at every stable quiescence (after the settle hooks
+// have nothing left to do).
+func (k *K) AddInvariant(f func()) { k.invs = append(k.invs, f) }
 
 // Enabled lists the currently enabled actions in canonical order, honouring drain mode.
 func (k *K) Enabled() []Action {
